@@ -209,13 +209,13 @@ theorem loopKA_eq_RG (N : NFA) (h : Bytes) (n : Nat) : ∀ (fuel pos : Nat) (Q :
       | none => simp
       | some M => simp [recordKA_new hl, bestOfA]
 
-/-- (c) for automata flagged anchored: the capture search started at `at` (strictly inside the haystack) returns the
+/-- (c) for automata flagged anchored: the capture search started at any `at ≤ len(haystack)` returns the
     slots of the first accepting path of the priority DFS from that single start position -/
 theorem pikeCaps_anchored_eq {N : NFA} {h : Bytes} (ha : anchored N = true) (hd : SparseDisjoint N) (hR : RuneOK N h)
-    {at_ : Nat} (hat : at_ < h.size) (n : Nat) :
+    {at_ : Nat} (hat : at_ ≤ h.size) (n : Nat) :
     pikeCaps N h at_ n = (btCapsAnchored N h at_ n).map normCaps := by
   unfold pikeCaps pikeCapsL
-  rw [if_neg (by omega), if_neg (by omega), ha]
+  rw [if_neg (by omega), ha]
   simp only [↓reduceIte]
   unfold searchCapsAnchored
   simp only []
